@@ -5,7 +5,7 @@ import random
 from harness import edits as E, docs as D
 from harness.tlc import from_atoms
 
-TWINS = ['\\a{x} b \\a{x} c', '\\a{x}\\a{x}\\a{x}', '\\s[\\a{x}]{\\a{x}}\\a{x}', '\\begin{e}{\\a{x}}\\a{x}\\end{e}',
+TWINS = ['\\x a \\y a \\z', '{ a \\y a }a \\y a ', '\\a{x} b \\a{x} c', '\\a{x}\\a{x}\\a{x}', '\\s[\\a{x}]{\\a{x}}\\a{x}', '\\begin{e}{\\a{x}}\\a{x}\\end{e}',
          '\\begin{itemize}\\item[\\a{x}] \\a{x}\\end{itemize}', '\\p{\\q{\\r}}\\p{\\q{\\r}}', '{\\a\\a}', '$\\a{x}$ {\\a{x}} \\a{x}',
          '\\begin{e}[\\o{1}]{r} t \\c{ \\d{2} } $m \\f{3}$ {g \\h{4}}\\end{e} z', '\\begin{itemize}\\item i \\j{5} \\item k\\end{itemize}',
          '\\textbf{Hello} \\begin{v}q\\end{v} $x$', 'x \\a x \\b x', '\\begin{e}\\begin{e}\\a{x}\\end{e}\\a{x}\\end{e}']
@@ -29,7 +29,7 @@ def run(chk):
                 'a fresh parse of the real tree (target located by identity through the public views) and the serialised text, '
                 'search counts, text view and descendants must equal the model\'s. A case is (document, edit).')
     srcs = start_docs(chk, 300 if quick else 711)
-    recs = E.explore(chk, 'single', srcs, 1, E.STRUCT, materials=MATS)
+    recs = E.explore(chk, 'single', srcs, 1, E.STRUCT, materials=MATS, text_targets=True)
     E.replay_all(chk, recs, 'C05')
     for r in recs[:2] + recs[-2:]:
         chk.sample({'source': from_atoms(r['i']), 'edit': E.show_op(r['h'][0]['op']), 'text_after': from_atoms(r['h'][0]['obs']['t'])})
